@@ -28,6 +28,14 @@ var (
 	cgCache = map[*core.Program]*cgIndex{}
 )
 
+// Release drops everything cached for p (the call-graph index keeps the whole program alive): called when a
+// mutated or patched program of the self-tests has been checked.
+func Release(p *core.Program) {
+	cgMu.Lock()
+	delete(cgCache, p)
+	cgMu.Unlock()
+}
+
 func cgOf(p *core.Program) *cgIndex {
 	cgMu.Lock()
 	defer cgMu.Unlock()
